@@ -605,6 +605,10 @@ def _resolve_select(select: Any, graph: Graph) -> str | list[str]:
     """Resolve effective select: unset → graph.selected → '**'."""
     if select is _UNSET_SELECT:
         return list(graph.selected) if graph.selected is not None else "**"
+    if not isinstance(select, (str, list, tuple)):
+        # A container type whose names validation does not check (a set, an iterator,
+        # dict keys) narrows nothing there and must not be trusted as a list of names here
+        return "**"
     return select
 
 
